@@ -346,6 +346,157 @@ def rule_r4(F, rep):
                       "and the -S/-y conflict only" % (len(sites), [f.q for f, _, _, _ in sites]))
 
 
+PLAIN_PARAM_ADTS = (CLI, SESSION, "rsjsonnet_lang::program::Value")
+
+
+def _param_adt(body, l):
+    ty = body.local_ty(l)
+    while ty["k"] in ("ref", "ptr"):
+        ty = body.ty(ty["t"])
+    return ty.get("d") if ty["k"] == "adt" else None
+
+
+def _flag_hook(F, flags):
+    """every read of one of the three mode flags out of a `Cli` yields the chosen value — in whichever function the read stands
+    (helpers that did not exist on the reference tree are walked in place by KWALK)"""
+    def after(w, bb, idx, s, env):
+        rv = s["rv"]
+        if rv["k"] == "use" and rv["x"]["k"] in ("copy", "move"):
+            f = prov.field_write(F, w.body, rv["x"], CLI)
+            if f in flags:
+                env[w.norm(env, s["p"])] = flags[f]
+    return after
+
+
+def _is_call_to(t, q):
+    return t["k"] == "call" and t["f"].get("k") == "def" and (t["f"].get("r") == q or t["f"].get("d") == q)
+
+
+def _operand_locals(rv_or_term):
+    out = []
+    for k in ("x", "a", "b"):
+        o = rv_or_term.get(k)
+        if isinstance(o, dict) and o.get("k") in ("copy", "move"):
+            out.append(o["l"])
+    for o in rv_or_term.get("xs", ()):
+        if isinstance(o, dict) and o.get("k") in ("copy", "move"):
+            out.append(o["l"])
+    p = rv_or_term.get("p")
+    if isinstance(p, dict) and "l" in p:
+        out.append(p["l"])
+    return out
+
+
+def mode_slice(F, body, ops, flags):
+    """locals of `body` whose values can matter for the operands `ops` under fixed flags: everything the operands are computed
+    from (backwards over definitions) and everything computed from a flag read (forwards; these decide branches)"""
+    P = prov.Prov(F, body)
+    keep = set()
+    work = [x["l"] for x in ops if x.get("k") in ("copy", "move")]
+    while work:
+        l = work.pop()
+        if l in keep:
+            continue
+        keep.add(l)
+        for d in P.defs.get(l, []):
+            work += _operand_locals(d[3] if d[0] == "call" else d[3]["rv"])
+    fwd = set()
+    for bb, si, s in body.assigns():
+        rv = s["rv"]
+        if rv["k"] == "use" and rv["x"]["k"] in ("copy", "move") and prov.field_write(F, body, rv["x"], CLI) in flags:
+            fwd.add(s["p"]["l"])
+    changed = True
+    while changed:
+        changed = False
+        for bb, si, s in body.assigns():
+            if s["p"]["l"] not in fwd and any(l in fwd for l in _operand_locals(s["rv"])):
+                fwd.add(s["p"]["l"])
+                changed = True
+    return keep | fwd
+
+
+def mode_arguments(F, rep, vfn, flags, want):
+    """What value_to_repr receives in its parameters `want` (those that are not the Cli / the session / the value) when the
+    command line has `flags`: the callers are walked from their entry with the flag reads fixed, up to each call of
+    value_to_repr; only the locals of `mode_slice` are tracked (everything else is explored both ways).  Returns a set of
+    environments (tuples of (place key, value)) for the callee's frame."""
+    sites = cg.who_calls(F, vfn.q, crates=("rsjsonnet",), raw=True)
+    owners = set()
+    for f, _, _ in sites:
+        owners |= cg.known_owners(F, f.q)
+    found = set()
+    for oq in sorted(owners):
+        g = F.fn_opt(oq)
+        if g is None or g.body is None:
+            continue
+        rep.fn(g)
+        own_sites = [t for _, t in g.body.calls() if _is_call_to(t, vfn.q)]
+        keep = mode_slice(F, g.body, [t["xs"][i - 1] for t in own_sites for i in want], flags) if own_sites else None
+        flag_hook = _flag_hook(F, flags)
+
+        def prune(w, env, keep=keep):
+            # in the owner's own frame (not inside a helper walked in place) forget what is outside the slice
+            if keep is None or w.pre:
+                return
+            for k in [k for k in env if k[:1].isdigit()]:
+                j = 0
+                while j < len(k) and k[j].isdigit():
+                    j += 1
+                if int(k[:j]) not in keep:
+                    del env[k]
+
+        def after(w, bb, idx, s, env):
+            flag_hook(w, bb, idx, s, env)
+            prune(w, env)
+
+        def on_edge(w, bb, nb, env):
+            prune(w, env)
+            return None
+
+        def on_term(w, bb, t, env):
+            if not _is_call_to(t, vfn.q):
+                return None
+            snap = {}
+
+            def take(dst, src, depth=0):
+                for k, v in list(env.items()):
+                    if kwalk._prefix_match(k, src):
+                        k2 = dst + k[len(src):]
+                        if isinstance(v, tuple) and v and v[0] == "ref":
+                            # a reference into the caller's frame: carry the referent along under a name of its own
+                            if depth < 3:
+                                name = "caller:%s" % v[1]
+                                take(name, v[1], depth + 1)
+                                snap[k2] = ("ref", name)
+                        else:
+                            snap[k2] = v
+            for i in want:
+                x = t["xs"][i - 1]
+                if x["k"] in ("copy", "move"):
+                    take(str(i), w.norm(env, x))
+                else:
+                    v = w.val(env, x)
+                    if v is not None:
+                        snap[str(i)] = v
+            return (kwalk.STOP, ("args", tuple(sorted(snap.items(), key=lambda kv: kv[0]))))
+        w = kwalk.Walker(F, g.body, after_stmt=after, on_edge=on_edge, on_term=on_term, max_states=600000)
+        outs = w.run(0, {})
+        rep.states += w.states_explored
+        for kind, marks, _ in outs:
+            for m in marks:
+                if isinstance(m, tuple) and m and m[0] == "args":
+                    found.add(m[1])
+    if not found:
+        raise kwalk.WalkLimit("no call of value_to_repr was reached from %s with the mode flags fixed" % sorted(owners))
+    for snap in found:
+        have = {k for k, _ in snap}
+        for i in want:
+            if not any(kwalk._prefix_match(k, str(i)) for k in have):
+                raise kwalk.WalkLimit("parameter %d of value_to_repr does not resolve to a value determined by the mode flags "
+                                      "at its call sites" % i)
+    return found
+
+
 def rule_r5(F, rep):
     R = rep.rule("C12.R5", "value_to_repr: the final newline is appended exactly when --no-trailing-newline is absent and "
                  "nothing else depends on that flag; -y emits `---`, the item and a line break per item and closes with "
@@ -353,21 +504,19 @@ def rule_r5(F, rep):
     fn = F.fn("rsjsonnet::value_to_repr")
     rep.fn(fn)
     body = fn.body
-    cli = F.adt(CLI)
-    fidx = {f["n"]: i for i, f in enumerate(cli["variants"][0]["fields"])}
+    F.adt(CLI)
+    # parameters other than the Cli itself, the session and the value carry (a digest of) the mode: their values are taken
+    # from the call sites, as a function of the flags
+    carriers = [l for l in range(1, body.argc + 1) if _param_adt(body, l) not in PLAIN_PARAM_ADTS]
     for string in (0, 1):
         for yaml in (0, 1):
             for ntn in (0, 1):
                 if string and yaml:
                     continue
                 flags = {"string": string, "yaml_stream": yaml, "no_trailing_newline": ntn}
-
-                def after(w, bb, idx, s, env, flags=flags):
-                    rv = s["rv"]
-                    if rv["k"] == "use" and rv["x"]["k"] in ("copy", "move"):
-                        f = prov.field_write(F, w.body, rv["x"], CLI)
-                        if f in flags:
-                            env[w.norm(env, s["p"])] = flags[f]
+                starts = [()]
+                if carriers:
+                    starts = sorted(mode_arguments(F, rep, fn, flags, carriers), key=repr)
 
                 def on_term(w, bb, t, env):
                     if t["k"] == "call":
@@ -383,16 +532,17 @@ def rule_r5(F, rep):
                         if n.endswith("Value>::to_string"):
                             return ("to_string",)
                     return None
-                w = kwalk.Walker(F, body, after_stmt=after, on_term=on_term, ordered_marks=True, dedupe_marks=True,
-                                 want_ret=True)
-                outs = w.run(0, {})
-                rep.states += w.states_explored
                 oks = set()
-                for kind, marks, ret in outs:
-                    d = dict(ret or ())
-                    top = d.get("0")
-                    if kind == "return" and isinstance(top, tuple) and top[2] == "Ok":
-                        oks.add(tuple(marks))
+                for start in starts:
+                    w = kwalk.Walker(F, body, after_stmt=_flag_hook(F, flags), on_term=on_term, ordered_marks=True,
+                                     dedupe_marks=True, want_ret=True)
+                    outs = w.run(0, dict(start))
+                    rep.states += w.states_explored
+                    for kind, marks, ret in outs:
+                        d = dict(ret or ())
+                        top = d.get("0")
+                        if kind == "return" and isinstance(top, tuple) and top[2] == "Ok":
+                            oks.add(tuple(marks))
                 if string:
                     exp = {(("to_string",),) if ntn else (("to_string",), ("push", 10))}
                 elif yaml:
